@@ -129,8 +129,13 @@ func plans(tp tierParams) []plan {
 			Cfg{Has: has(F, T, T), H: 2},
 		)
 	}
-	for _, c := range lv {
-		add(c, one, tp.lcap, tp.budLevels)
+	for i, c := range lv {
+		bud := tp.budLevels
+		if !tp.full && i > 1 && len(classes(c)) > 8 {
+			// quick: one 16-class configuration at full depth, the others one step shorter
+			bud = tp.budLevels / 8
+		}
+		add(c, one, tp.lcap, bud)
 	}
 	// the level family once in batch form (per-point levels, highest wins)
 	add(Cfg{Has: has(T, T, T), H: 2, Batch: true}, one, tp.lcap, tp.budBatch)
@@ -177,7 +182,11 @@ func plans(tp tierParams) []plan {
 					hs := has(F, F, T)
 					if (s.on != nr) || tp.full {
 						// pairwise in quick: two-level variants on the off-diagonal
-						add(Cfg{Has: has(F, T, T), Sco: s.on, Scod: s.d, NoRec: nr, Flap: T, Flo: f.lo, Fhi: f.hi, H: f.H, Batch: b}, one, tp.lcapFlap, tp.budFlap)
+						bud := tp.budFlap
+						if !tp.full && f.H != 3 {
+							bud = tp.budFlap / 4
+						}
+						add(Cfg{Has: has(F, T, T), Sco: s.on, Scod: s.d, NoRec: nr, Flap: T, Flo: f.lo, Fhi: f.hi, H: f.H, Batch: b}, one, tp.lcapFlap, bud)
 					}
 					dts := one
 					if s.d > 0 {
@@ -340,6 +349,10 @@ func Run(r *rt.Run) error {
 		}
 	}
 
+	// the documented worked example with its numeric thresholds (first, so that it
+	// also shows up in the evidence samples)
+	runDocExample(x, t, &nid)
+
 	// systematic part
 	nseq := 0
 	for _, p := range plans(tp) {
@@ -365,9 +378,6 @@ func Run(r *rt.Run) error {
 			runBatch(p.cfg, chunk)
 		}
 	}
-	// the documented worked example with its numeric thresholds
-	runDocExample(x, t, &nid)
-
 	// random part
 	for i := 0; i < tp.nRandCfg; i++ {
 		c := randomCfg(r.Rand)
